@@ -121,6 +121,8 @@ struct Net {
     latency: Duration,
     /// Index (in call order) of the one `poll_send` call that reports "not writable"
     block_at: Option<u64>,
+    error_at: Option<u64>,
+    errors_fired: u64,
     send_calls: u64,
     blocked: Vec<Waker>,
     blocked_fired: u64,
@@ -213,6 +215,8 @@ impl World {
                 senders: 0,
                 latency,
                 block_at: None,
+                error_at: None,
+                errors_fired: 0,
                 send_calls: 0,
                 blocked: Vec::new(),
                 blocked_fired: 0,
@@ -579,6 +583,15 @@ impl World {
         self.net.lock().unwrap().block_at = call;
     }
 
+    /// The n-th `poll_send` call of the run fails with a hard I/O error
+    pub fn fail_send_at(&self, call: Option<u64>) {
+        self.net.lock().unwrap().error_at = call;
+    }
+
+    pub fn send_errors_fired(&self) -> u64 {
+        self.net.lock().unwrap().errors_fired
+    }
+
     pub fn send_calls(&self) -> (u64, u64) {
         let n = self.net.lock().unwrap();
         (n.send_calls, n.blocked_fired)
@@ -827,6 +840,11 @@ impl UdpSender for VSender {
             n.blocked.push(cx.waker().clone());
             n.blocked_fired += 1;
             return Poll::Pending;
+        }
+        if n.error_at == Some(call) {
+            // a hard I/O error from the socket (the connection driver that sees it gives up)
+            n.errors_fired += 1;
+            return Poll::Ready(Err(io::Error::new(io::ErrorKind::PermissionDenied, "injected send error")));
         }
         let seg = t.segment_size.unwrap_or(t.contents.len()).max(1);
         for c in t.contents.chunks(seg) {
